@@ -201,6 +201,9 @@ class Pending:
                     tied.add(ob)
                     self.ctx.broken_tie(ob, text, cands)
                 continue
+            if self.ctx.is_known(key, obs):      # a listed finding is re-derived but never uses up the cap of its kind
+                self.ctx.fail(ob, key, obs, text, rp)
+                continue
             per[ob] = per.get(ob, 0) + 1
             if per[ob] <= MAXREP:
                 self.ctx.fail(ob, key, obs, text, rp)
@@ -526,6 +529,7 @@ def run(ctx: Ctx):
     search(ctx, gu, mp, pend, angles)
     high_degree(ctx, gu, mp, pend)
     dtype_layout(ctx, gu, mp, pend)
+    solid_range(ctx, gu, mp, pend)
     outside_principal_range(ctx, gu, mp, pend)
     mark("search")
 
@@ -855,7 +859,7 @@ def high_degree(ctx: Ctx, gu, mp, pend: Pending):
         for w, arr in outs.items():
             for j in range(len(pts)):
                 if not close(arr[row(l, m), j], ys[j]) and nrep[w] < MAXREP * 2:
-                    nrep[w] += 1
+                    nrep[w] += 0 if ctx.is_known(f"sph:{w}:{l}:{m}:{th[j]!r}:{ph[j]!r}", float(arr[row(l, m), j])) else 1
                     report(w, L, l, m, j, arr[row(l, m), j], ys[j])
     ctx.count("high_degree_reference_rows", len(sel) * len(pts) * 2)
 
@@ -1007,6 +1011,52 @@ def dtype_layout(ctx: Ctx, gu, mp, pend: Pending):
                      {**rp, "l": l, "m": m, "index": j, "expected": yo})
 
 
+def solid_range(ctx: Ctx, gu, mp, pend: Pending):
+    """solid_harmonics over the whole range of its result type: radii far from one combined with degrees for which r^l leaves the
+    double range (the routine returns extended precision), and integer-typed points whose r^l exceeds 2^63.  Compared in
+    multiprecision with a RELATIVE tolerance (1e-9), on the rows m = 0, +-1, +-(l-1), +-l and a random one, for a ladder of degrees."""
+    rng = ctx.rng
+    pi = math.pi
+    configs = [("float64", 140, [[250.0, 0.5, 1.0], [2.0e-3, -2.5, 2.0], [250.0, 1.0, 0.0], [1.0e3, 7.9, pi / 2], [1.0e-2, 0.3, pi - 0.5]]),
+               ("int64", 45, [[10, 0, 0], [3, 1, 2], [7, -2, 1], [1000, 2, 3]]),
+               ("int32", 30, [[10, 1, 1], [100, 0, 2]]),
+               ("float32", 60, [[100.0, 0.5, 1.0], [0.0078125, 2.0, 2.5]])]
+    lmaxld = float(np.finfo(np.longdouble).max)
+    for dt, L, values in configs:
+        key0 = f"solid_harmonics({L})[{dt}]:{values}"
+        rp0 = {"kind": "solidv", "l_max": L, "pts": values, "dtype": dt, "layout": "C"}
+        ctx.case(("solid-range", dt, L))
+        try:
+            out = np.asarray(gu.solid_harmonics(L, make_array(values, dt, "C")))
+        except Exception as e:  # noqa: BLE001
+            pend.add(0, "search_solid", key0, f"{type(e).__name__}", f"solid_harmonics({L}, {dt} array {values}) raised {type(e).__name__}: {str(e)[:100]}", rp0)
+            continue
+        if out.shape != ((L + 1) ** 2, len(values)):
+            pend.add(0, "search_solid", key0, str(out.shape), f"solid_harmonics({L}, {dt} array) has shape {out.shape}", rp0)
+            continue
+        degs = sorted(set(range(0, L + 1, 7)) | {L, L - 1, 19, 20, 40} & set(range(L + 1)))
+        rtol = 1e-4 if dt == "float32" else TOL
+        done = False
+        for l in degs:
+            ms = {0, min(1, l), -min(1, l), l, -l, max(l - 1, 0), -max(l - 1, 0), rng.randint(-l, l)}
+            for m in sorted(ms):
+                for j, (r, t, p) in enumerate(values):
+                    with mp.workdps(max(120, 2 * l)):
+                        exp = mp.sqrt(4 * mp.pi / (2 * l + 1)) * mp.mpf(r) ** l * o_Y(mp, l, m, mp.mpf(t), mp.mpf(p))
+                        if abs(exp) > lmaxld / 1e10:
+                            continue
+                        raw = out[row(l, m), j]
+                        got = mp.mpf(str(raw)) if np.isfinite(raw) else mp.mpf("nan")
+                        ok = mp.isfinite(got) and abs(got - exp) <= rtol * abs(exp) + mp.mpf(10) ** -300
+                    ctx.count("solid_range_values")
+                    if not ok and not done:
+                        done = True     # first failing row of this configuration
+                        pend.add(l, "search_solid", f"{key0}:{l}:{m}:{j}", str(raw),
+                                 f"solid_harmonics({L}, {dt} array) (l,m)=({l},{m}) at (r,theta,phi)={values[j]} is {raw!r}; sqrt(4pi/(2l+1)) r^l Y_lm = {mp.nstr(exp, 17)} "
+                                 f"(r^l = {mp.nstr(mp.mpf(r) ** l, 6)})",
+                                 {**rp0, "l": l, "m": m, "index": j, "expected": mp.nstr(exp, 25), "relative": True})
+
+
 def outside_principal_range(ctx: Ctx, gu, mp, pend):
     """Polar angles outside [0, pi] ("If this angle is outside of bounds, then periodicity is used" in both docstrings):
     the two implementations and the derivative routine are probed at fixed inputs; each disagreement is reported with a stable key
@@ -1106,6 +1156,11 @@ def replay(rp):
         idx = tuple(rp.get("index", [0, 0]))
         print(f"{rp['fn']}(..., {rp['dtype']} arrays [{rp['layout']}]){list(idx)} = {float(out[idx])!r}; expected {rp.get('expected')!r}")
         return 0 if close(out[idx], rp.get("expected", out[idx]), 1e-3 if rp["dtype"] in ("float32", "int16") else 1e-8) else 1
+    if kind == "solidv" and rp.get("relative"):
+        raw = np.asarray(gu.solid_harmonics(rp["l_max"], make_array(rp["pts"], rp["dtype"], rp["layout"])))[row(rp["l"], rp["m"]), rp["index"]]
+        exp = mp.mpf(rp["expected"])
+        print(f"solid_harmonics({rp['l_max']}, {rp['dtype']} array)[{row(rp['l'], rp['m'])}, {rp['index']}] = {raw!r}; expected {rp['expected']}")
+        return 0 if np.isfinite(raw) and abs(mp.mpf(str(raw)) - exp) <= (1e-4 if rp["dtype"] == "float32" else 1e-9) * abs(exp) else 1
     if kind == "solidv":
         out = np.asarray(gu.solid_harmonics(rp["l_max"], make_array(rp["pts"], rp["dtype"], rp["layout"])), dtype=float)
         v = float(out[row(rp["l"], rp["m"]), rp["index"]])
